@@ -486,3 +486,30 @@ Fixpoint hc_run (p : cpx) (cache : option (Z * Z)) (ops : list pop) : list (list
 Definition c_transact_flush (takes : list Z) (c : cstate) (p : cpx) (k : nat) : cstate * list cobs :=
   c_step takes (mk_cs (cs_in c) (match cs_rt c (c_fn p) with Some _ => upd (cs_rt c) (c_fn p) [] | None => cs_rt c end) (cs_open c))
          (CTransact p k).
+
+(* ---------------------------------------------------------------- queues registered at construction (fix F18e) *)
+(* CPXRouter(transport, functions): one queue of its OWN for every listed function, before the thread exists *)
+Fixpoint r_reg (fs : list Z) : rstate :=
+  match fs with
+  | [] => r_init
+  | f :: r => upd (r_reg r) f []
+  end.
+Definition zmem (f : Z) (fs : list Z) : bool := existsb (Z.eqb f) fs.
+
+(* a router in which the functions registered at construction SHARE one queue object (dict.fromkeys(.., Queue())) *)
+Definition sh_step (members : list Z) (shared : list cpx) (e : ev) : list cpx * list obs :=
+  match e with
+  | Arrive (Ok p) => if zmem (c_fn p) members then (shared ++ [p], []) else (shared, [])
+  | Arrive (Exc _) => (shared, [])
+  | Recv f => if zmem f members then
+                match shared with
+                | [] => ([], [(f, None)])
+                | p :: q => (q, [(f, Some p)])
+                end
+              else (shared, [(f, None)])
+  end.
+Fixpoint sh_run (members : list Z) (shared : list cpx) (evs : list ev) : list obs :=
+  match evs with
+  | [] => []
+  | e :: r => let '(s1, o1) := sh_step members shared e in o1 ++ sh_run members s1 r
+  end.
